@@ -56,7 +56,10 @@ class Program:
             if name == "Jump" and (p + 3) in entries and p + 2 < len(self.ins):
                 t = self.ins[p + 1] | (self.ins[p + 2] << 8)
                 self.regions.append((p + 3, t))
-        self.entries = entries
+        # a function constant is callable in THIS code only if its entry starts one of this code's function bodies
+        # (a retained compiler's constant pool still holds the function values of earlier lines)
+        starts = set(a for (a, b) in self.regions)
+        self.entries = {a: c for a, c in entries.items() if a in starts}
 
     def owner(self, ip):
         """innermost function region containing ip (None = top level)"""
@@ -156,14 +159,16 @@ class Machine:
 
     # ---------------------------------------------------------------- run
     def run(self, prog):
-        """VM::run: resets ip/bp/frame 0, keeps stack/globals/extra frames (retained sessions)."""
+        """VM::run: resets ip/bp, empties the operand stack, drops all frames but the first; keeps globals (retained sessions)."""
         ctx = self.ctx
         if prog.decode_error:
             return ("unsafe", prog.decode_error, list(self.out))
         self.ip = 0
         self.bp = 0
+        del self.stack[:]
+        del self.frames[1:]
         self.frames[0] = [0, 0]
-        self.region_stack = [None] * len(self.frames)
+        self.region_stack = [None]
         self.final = NULL
         self.const_cache = {}
         self.steps = 0
